@@ -7,9 +7,12 @@
 (*                                                                         *)
 (* A configuration says, for each parameter, in which state the option and *)
 (* the metadata are.  Allowed(cfg) is the SET of outcomes the property     *)
-(* accepts: where its statement is silent (an invalid metadata value that  *)
-(* a valid option overrides; invalid RED1/RED2 metadata) both "refuse with *)
-(* 65" and "ignore it" are allowed.                                        *)
+(* accepts.  A bad value of the area or of k_exp is refused with 65        *)
+(* wherever it is given - also a metadata value that a valid option would  *)
+(* override ("bad values terminate with exit code 65", as the tree does).  *)
+(* Only for invalid RED1 / RED2 metadata, which the statement does not     *)
+(* single out and the tree ignores with a message, both "refuse with 65"   *)
+(* and "ignore it" are allowed.                                            *)
 (*                                                                         *)
 (* States:  "absent" | "valid" | "edge" | "range" | "text"                 *)
 (*   area   option 2.25 / 0.001 (refused: <= 0.001) / -3 / abc             *)
@@ -73,7 +76,7 @@ Allowed(c) ==
       \* metadata values that would be USED (no option) and are invalid: refused
       metaUsedBad == (~Present(c.aopt) /\ Present(c.ameta) /\ ~AreaOk("meta", c.ameta))
                      \/ (~Present(c.kopt) /\ Present(c.kmeta) /\ ~KOk("meta", c.kmeta))
-      \* invalid metadata the statement is silent about: overridden by a valid option, or RED1/RED2 text
+      \* invalid area / k_exp metadata that a valid option would override: refused all the same; RED1/RED2 text: either
       metaSilentBad == (Present(c.aopt) /\ Present(c.ameta) /\ ~AreaOk("meta", c.ameta))
                        \/ (Present(c.kopt) /\ Present(c.kmeta) /\ ~KOk("meta", c.kmeta))
       redMetaBad == (c.r1opt = "absent" /\ c.r1meta = "text") \/ (c.r2opt = "absent" /\ c.r2meta = "text")
@@ -93,6 +96,7 @@ Allowed(c) ==
      ELSE IF noSource THEN refuse(64)
      ELSE IF badLoc THEN refuse(65)
      ELSE IF metaUsedBad THEN refuse(65)
-     ELSE IF metaSilentBad \/ redMetaBad THEN refuse(65) \cup {ok}
+     ELSE IF metaSilentBad THEN refuse(65)
+     ELSE IF redMetaBad THEN refuse(65) \cup {ok}
      ELSE {ok}
 =============================================================================
